@@ -37,7 +37,7 @@ Proof.
   destruct (g a) eqn:Eg; destruct (f a) eqn:Ef; cbn; rewrite ?Eg, ?Ef, IH; reflexivity.
 Qed.
 
-Record Dur (s : fs) (d : dworld) (g : list path) : Prop := {
+Record Dur (s : fs) (d : dworld) (g gd : list path) : Prop := {
   du_bs : bsize s = dbs d;
   du_pend : Forall2 (wrel d g) (pwrites (pending s)) (dpend d);
   du_nodup : NoDup (map fst (dents d));
@@ -46,7 +46,9 @@ Record Dur (s : fs) (d : dworld) (g : list path) : Prop := {
   du_dd : forall p, nget (dents d) p = Some EDir -> mem_path p (pdirs s) = true;
   du_cur : forall p i, nget (names (dw d)) p = Some (EFile i) -> cont (fget (pfiles s) p) = iget (ddata d) i;
   du_pf : forall p, has_file (pfiles s) p = true -> is_file (dw d) p = true \/ mem_path p g = true;
-  du_pd : forall p, mem_path p (pdirs s) = true -> is_dir (dw d) p = true;
+  du_pd : forall p, mem_path p (pdirs s) = true -> is_dir (dw d) p = true \/ mem_path p gd = true;
+  du_kd : forall p, mem_path p gd = true -> is_file (dw d) p = false;
+  du_k2 : forall p, mem_path p g = true -> mem_path p gd = false;
   du_ef : forall p i, nget (dents d) p = Some (EFile i) ->
             nget (names (dw d)) p = Some (EFile i) \/ mem_path p g = true;
   du_k : forall p, mem_path p g = true -> is_dir (dw d) p = false;
@@ -61,7 +63,7 @@ Record Dur (s : fs) (d : dworld) (g : list path) : Prop := {
             In (PRemoveFile p) (pending s) \/
             (~ In (CreateFile p) (pending s) /\ mem_path p (synced s) = false /\ has_file (pfiles s) p = false);
   du_rl : forall p b, In (PRemoveFile p) (pending s) -> fold_left (fx_step p) (pending s) b = false;
-  du_nd : forall p, ~ In (PRemoveDir p) (pending s)
+  du_rd : forall p, In (PRemoveDir p) (pending s) -> mem_path p gd = true
 }.
 
 (* the shadow of d restricted to what Dur reads besides the tree *)
@@ -77,15 +79,18 @@ Definition pend_step (o : pop) (d d' : dworld) : Prop :=
 
 (* ---- push-only transitions --------------------------------------------------------------------- *)
 (* generic: the persisted tables do not move, the log grows by ops *)
-Lemma Dur_push_gen s d g o d' g' :
-  Dur s d g -> same_shadow d d' ->
-  (forall p, o <> PRemoveDir p) ->
+Lemma Dur_push_gen s d g gd o d' g' gd' :
+  Dur s d g gd -> same_shadow d d' ->
+  (forall p, o = PRemoveDir p -> mem_path p gd' = true) ->
+  (forall p, mem_path p gd = true -> mem_path p gd' = true) ->
   (* conditions on the new log entry *)
   (forall p, o = CreateFile p -> mem_path p g = false /\ ~ In (PRemoveFile p) (pending s)) ->
   (* the tree-dependent fields, re-established by the caller *)
   (forall p i, nget (names (dw d')) p = Some (EFile i) -> cont (fget (pfiles s) p) = iget (ddata d) i) ->
   (forall p, has_file (pfiles s) p = true -> is_file (dw d') p = true \/ mem_path p g' = true) ->
-  (forall p, mem_path p (pdirs s) = true -> is_dir (dw d') p = true) ->
+  (forall p, mem_path p (pdirs s) = true -> is_dir (dw d') p = true \/ mem_path p gd' = true) ->
+  (forall p, mem_path p gd' = true -> is_file (dw d') p = false) ->
+  (forall p, mem_path p g' = true -> mem_path p gd' = false) ->
   (forall p i, nget (dents d) p = Some (EFile i) -> nget (names (dw d')) p = Some (EFile i) \/ mem_path p g' = true) ->
   (forall p, mem_path p g' = true -> is_dir (dw d') p = false) ->
   (forall p q i, nget (dents d) q = Some (EFile i) -> nget (names (dw d')) p = Some (EFile i) -> q = p) ->
@@ -94,9 +99,9 @@ Lemma Dur_push_gen s d g o d' g' :
   (forall p, mem_path p g' = true -> mem_path p g = true \/ o = PRemoveFile p) ->
   pend_step o d d' -> (forall p i, owner d g p i -> owner d' g' p i) ->
   (forall p off data i, o = PWrite p off data -> nget (names (dw d')) p = Some (EFile i) -> i < next_ino (dw d')) ->
-  Dur (push s o) d' g'.
+  Dur (push s o) d' g' gd'.
 Proof.
-  intros [A Ap And B C D E F G H I J K L M N O P Q R] (S1 & S2 & S3) Hnd Hcf Hcur Hpf Hpd Hef Hk Hu Hb Hb2 Hg Hps Hown Hnew.
+  intros [A Ap And B C D E F G Gd G2 H I J K L M N O P Q R] (S1 & S2 & S3) Hrd Hgdm Hcf Hcur Hpf Hpd Hkd Hk2 Hef Hk Hu Hb Hb2 Hg Hps Hown Hnew.
   assert (Hmono : Forall2 (wrel d' g') (pwrites (pending s)) (dpend d)).
   { eapply Forall2_impl; [|exact Ap]. intros o0 w (p0 & off0 & data0 & i0 & X1 & X2 & X3 & X4).
     exists p0, off0, data0, i0. split; [exact X1|]. split; [exact X2|]. split; [exact X3|]. apply Hown. exact X4. }
@@ -120,7 +125,7 @@ Proof.
         destruct (Hcf p eq_refl). contradiction.
       * destruct (path_eqb p0 p); reflexivity.
     + subst o. cbn [fx_step]. rewrite path_eqb_refl. reflexivity.
-  - intros p Hin. apply in_app_iff in Hin as [Hin|[Hin|[]]]; [eapply R; exact Hin|]. eapply Hnd. exact Hin.
+  - intros p Hin. apply in_app_iff in Hin as [Hin|[Hin|[]]]; [apply Hgdm; eapply R; exact Hin|]. eapply Hrd. exact Hin.
 Qed.
 
 Lemma owner_ext d d' g p i :
@@ -128,12 +133,12 @@ Lemma owner_ext d d' g p i :
   owner d g p i -> owner d' g p i.
 Proof. unfold owner. intros -> -> ->. auto. Qed.
 
-Lemma Dur_ext s d d' g :
-  Dur s d g -> same_shadow d d' -> dpend d' = dpend d ->
+Lemma Dur_ext s d d' g gd :
+  Dur s d g gd -> same_shadow d d' -> dpend d' = dpend d ->
   names (dw d') = names (dw d) -> next_ino (dw d') = next_ino (dw d) ->
-  Dur s d' g.
+  Dur s d' g gd.
 Proof.
-  intros [A Ap And B C D E F G H I J K L M N O P Q R] (S1 & S2 & S3) S4 Hn Hx.
+  intros [A Ap And B C D E F G Gd G2 H I J K L M N O P Q R] (S1 & S2 & S3) S4 Hn Hx.
   constructor; unfold is_file, is_dir in *; rewrite ?S1, ?S2, ?S3, ?S4, ?Hn, ?Hx; auto.
   eapply Forall2_impl; [|exact Ap]. intros o w (p0 & off0 & data0 & i0 & X1 & X2 & X3 & X4).
   exists p0, off0, data0, i0. split; [exact X1|]. split; [exact X2|]. split; [exact X3|].
@@ -141,36 +146,38 @@ Proof.
 Qed.
 
 (* a data operation (write / set_len) on an existing file *)
-Lemma Dur_data s d g o d' p :
-  Dur s d g -> same_shadow d d' -> names (dw d') = names (dw d) -> next_ino (dw d') = next_ino (dw d) ->
+Lemma Dur_data s d g gd o d' p :
+  Dur s d g gd -> same_shadow d d' -> names (dw d') = names (dw d) -> next_ino (dw d') = next_ino (dw d) ->
   is_data_op p o = true -> pend_step o d d' ->
   (forall q j, nget (names (dw d)) q = Some (EFile j) -> j < next_ino (dw d)) ->
-  Dur (push s o) d' g.
+  Dur (push s o) d' g gd.
 Proof.
-  intros HD HS Hn Hx Hdo Hps Hbound. pose proof HD as [A Ap And B C D E F G H I J K L M N O P Q R].
+  intros HD HS Hn Hx Hdo Hps Hbound. pose proof HD as [A Ap And B C D E F G Gd G2 H I J K L M N O P Q R].
   pose proof HS as (S1 & S2 & S3).
-  eapply (Dur_push_gen s d g o d' g HD HS); unfold is_file, is_dir in *; rewrite ?Hn, ?Hx; auto.
+  eapply (Dur_push_gen s d g gd o d' g gd HD HS); unfold is_file, is_dir in *; rewrite ?Hn, ?Hx; auto.
   - intros q Hq. subst o. discriminate.
   - intros q Hq. subst o. discriminate.
   - intros q i Hq. eapply owner_ext; eauto.
   - intros q off data i _ Hq. apply (Hbound q i Hq).
 Qed.
 
-Lemma Dur_create s d g p :
-  InvF s (dw d) g -> Dur s d g -> nget (names (dw d)) p = None -> mem_path p g = false ->
+Lemma Dur_create s d g gd p :
+  InvF s (dw d) g -> Dur s d g gd -> nget (names (dw d)) p = None -> mem_path p g = false ->
+  mem_path p gd = false ->
   Dur (push s (CreateFile p))
       (with_dw d {| names := nset (names (dw d)) p (EFile (next_ino (dw d)));
                     inodes := iset (inodes (dw d)) (next_ino (dw d)) [];
-                    next_ino := next_ino (dw d) + 1; shs := shs (dw d) |}) g.
+                    next_ino := next_ino (dw d) + 1; shs := shs (dw d) |}) g gd.
 Proof.
-  intros HI HD Hn Hg. pose proof HD as [A Ap And B C D E F G H I J K L M N O P Q R].
+  intros HI HD Hn Hg Hgd. pose proof HD as [A Ap And B C D E F G Gd G2 H I J K L M N O P Q R].
   assert (Hnf : is_file (dw d) p = false) by (unfold is_file; rewrite Hn; reflexivity).
   assert (Hnd : is_dir (dw d) p = false) by (unfold is_dir; rewrite Hn; reflexivity).
   assert (Hpf : has_file (pfiles s) p = false).
   { destruct (has_file (pfiles s) p) eqn:E0; [|reflexivity]. destruct (F p E0); congruence. }
-  eapply Dur_push_gen; eauto; cbn [dw with_dw names next_ino].
+  eapply (Dur_push_gen s d g gd (CreateFile p) _ g gd HD); cbn [dw with_dw names next_ino dents].
   - repeat split.
   - intros q Hq. discriminate.
+  - auto.
   - intros q Hq. inversion Hq; subst q. split; [exact Hg|]. intro Hin. apply (inv_rm _ _ _ HI) in Hin. congruence.
   - intros q i. rewrite nget_nset. destruct (path_eqb p q) eqn:Epq.
     + apply path_eqb_eq in Epq. subst q. intro Hi. inversion Hi; subst i.
@@ -179,8 +186,12 @@ Proof.
     + apply E.
   - intros q Hq. destruct (F q Hq) as [X|X]; [left|right; exact X].
     unfold is_file in *. cbn [names]. rewrite nget_nset. destruct (path_eqb p q) eqn:Epq; [reflexivity|exact X].
-  - intros q Hq. pose proof (G q Hq) as X. unfold is_dir in *. cbn [names]. rewrite nget_nset.
+  - intros q Hq. destruct (G q Hq) as [X|X]; [left|right; exact X]. unfold is_dir in *. cbn [names]. rewrite nget_nset.
     destruct (path_eqb p q) eqn:Epq; [|exact X]. apply path_eqb_eq in Epq. subst q. congruence.
+  - intros q Hq. unfold is_file. cbn [names]. rewrite nget_nset. destruct (path_eqb p q) eqn:Epq.
+    + apply path_eqb_eq in Epq. subst q. congruence.
+    + apply Gd. exact Hq.
+  - exact G2.
   - intros q i Hq. destruct (H q i Hq) as [X|X]; [|right; exact X]. left. rewrite nget_nset.
     destruct (path_eqb p q) eqn:Epq; [|exact X]. apply path_eqb_eq in Epq. subst q. congruence.
   - intros q Hq. pose proof (I q Hq) as X. unfold is_dir in *. cbn [names]. rewrite nget_nset.
@@ -190,6 +201,7 @@ Proof.
     + apply J. exact Hr.
   - intros q i Hq. apply L in Hq. lia.
   - intros i Hi. apply M. lia.
+  - auto.
   - reflexivity.
   - intros q i (Hlt & Hown). unfold owner. cbn [dw with_dw names next_ino dents]. split; [lia|].
     destruct Hown as [X|(X1 & X2 & X3)].
@@ -201,27 +213,36 @@ Proof.
   - intros q off data i Hq. discriminate.
 Qed.
 
-Lemma Dur_unlink s d g p i :
-  InvF s (dw d) g -> Dur s d g -> nget (names (dw d)) p = Some (EFile i) ->
-  Dur (push s (PRemoveFile p)) (with_dw d (set_names (dw d) (ndel (names (dw d)) p))) (p :: g).
+Lemma Dur_unlink s d g gd p i :
+  InvF s (dw d) g -> Dur s d g gd -> nget (names (dw d)) p = Some (EFile i) ->
+  Dur (push s (PRemoveFile p)) (with_dw d (set_names (dw d) (ndel (names (dw d)) p))) (p :: g) gd.
 Proof.
-  intros HI HD Hn. pose proof HD as [A Ap And B C D E F G H I J K L M N O P Q R].
-  eapply Dur_push_gen; eauto; cbn [dw with_dw names next_ino set_names].
+  intros HI HD Hn. pose proof HD as [A Ap And B C D E F G Gd G2 H I J K L M N O P Q R].
+  assert (Hpgd : mem_path p gd = false).
+  { destruct (mem_path p gd) eqn:E0; [|reflexivity]. apply Gd in E0. unfold is_file in E0. rewrite Hn in E0. discriminate. }
+  eapply (Dur_push_gen s d g gd (PRemoveFile p) _ (p :: g) gd HD); cbn [dw with_dw names next_ino set_names dents].
   - repeat split.
   - intros q Hq. discriminate.
+  - auto.
   - intros q Hq. discriminate.
   - intros q j. rewrite nget_ndel. destruct (path_eqb p q); [discriminate|apply E].
   - intros q Hq. rewrite mem_path_cons. destruct (path_eqb q p) eqn:Eqp; [right; reflexivity|].
     destruct (F q Hq) as [X|X]; [left|right; exact X].
     rewrite is_file_ndel. rewrite path_eqb_sym, Eqp. exact X.
-  - intros q Hq. pose proof (G q Hq) as X. rewrite is_dir_ndel.
+  - intros q Hq. destruct (G q Hq) as [X|X]; [left|right; exact X]. rewrite is_dir_ndel.
     destruct (path_eqb p q) eqn:Epq; [|exact X]. apply path_eqb_eq in Epq. subst q.
     unfold is_dir in X. rewrite Hn in X. discriminate.
+  - intros q Hq. rewrite is_file_ndel. destruct (path_eqb p q); [reflexivity|apply Gd; exact Hq].
+  - intros q Hq. rewrite mem_path_cons in Hq. destruct (path_eqb q p) eqn:Eqp.
+    + apply path_eqb_eq in Eqp. subst q. exact Hpgd.
+    + apply G2. exact Hq.
   - intros q j Hq. rewrite mem_path_cons. destruct (path_eqb q p) eqn:Eqp; [right; reflexivity|].
     destruct (H q j Hq) as [X|X]; [left|right; exact X]. rewrite nget_ndel, path_eqb_sym, Eqp. exact X.
   - intros q Hq. rewrite is_dir_ndel. destruct (path_eqb p q) eqn:Epq; [reflexivity|].
     rewrite mem_path_cons, path_eqb_sym, Epq in Hq. apply I. exact Hq.
   - intros q r j Hr. rewrite nget_ndel. destruct (path_eqb p q); [discriminate|]. apply J. exact Hr.
+  - exact L.
+  - exact M.
   - intros q Hq. rewrite mem_path_cons in Hq. destruct (path_eqb q p) eqn:Eqp.
     + apply path_eqb_eq in Eqp. subst q. right. reflexivity.
     + left. exact Hq.
@@ -234,7 +255,7 @@ Proof.
         -- intros r. rewrite nget_ndel. destruct (path_eqb p r) eqn:Epr; [discriminate|].
            intro Hr. apply path_eqb_neq in Epr. apply Epr. eapply (inv_inj _ _ _ HI); eauto.
         -- destruct (nget (dents d) p) as [[|j']|] eqn:Ed.
-           ++ exfalso. apply D in Ed. apply G in Ed. unfold is_dir in Ed. rewrite Hn in Ed. discriminate.
+           ++ exfalso. apply D in Ed. destruct (G p Ed) as [Y|Y]; [unfold is_dir in Y; rewrite Hn in Y; discriminate|congruence].
            ++ left. destruct (H p j' Ed) as [Y|Y].
               ** rewrite Hn in Y. inversion Y. reflexivity.
               ** apply (inv_gone _ _ _ HI) in Y. unfold is_file in Y. rewrite Hn in Y. discriminate.
@@ -245,25 +266,31 @@ Proof.
   - intros q off data j Hq. discriminate.
 Qed.
 
-Lemma Dur_mkdir s d g p :
-  Dur s d g -> nget (names (dw d)) p = None -> mem_path p g = false ->
-  Dur (push s (CreateDir p)) (with_dw d (set_names (dw d) (nset (names (dw d)) p EDir))) g.
+Lemma Dur_mkdir s d g gd p :
+  Dur s d g gd -> nget (names (dw d)) p = None -> mem_path p g = false ->
+  Dur (push s (CreateDir p)) (with_dw d (set_names (dw d) (nset (names (dw d)) p EDir))) g gd.
 Proof.
-  intros HD Hn Hg. pose proof HD as [A Ap And B C D E F G H I J K L M N O P Q R].
-  eapply Dur_push_gen; eauto; cbn [dw with_dw names next_ino set_names].
+  intros HD Hn Hg. pose proof HD as [A Ap And B C D E F G Gd G2 H I J K L M N O P Q R].
+  eapply (Dur_push_gen s d g gd (CreateDir p) _ g gd HD); cbn [dw with_dw names next_ino set_names dents].
   - repeat split.
   - intros q Hq. discriminate.
+  - auto.
   - intros q Hq. discriminate.
   - intros q j. rewrite nget_nset. destruct (path_eqb p q); [discriminate|apply E].
   - intros q Hq. destruct (F q Hq) as [X|X]; [left|right; exact X]. rewrite is_file_nset.
     destruct (path_eqb p q) eqn:Epq; [|exact X]. apply path_eqb_eq in Epq. subst q.
     unfold is_file in X. rewrite Hn in X. discriminate.
-  - intros q Hq. pose proof (G q Hq) as X. rewrite is_dir_nset. destruct (path_eqb p q); [reflexivity|exact X].
+  - intros q Hq. destruct (G q Hq) as [X|X]; [left|right; exact X]. rewrite is_dir_nset. destruct (path_eqb p q); [reflexivity|exact X].
+  - intros q Hq. rewrite is_file_nset. destruct (path_eqb p q); [reflexivity|apply Gd; exact Hq].
+  - exact G2.
   - intros q j Hq. destruct (H q j Hq) as [X|X]; [left|right; exact X]. rewrite nget_nset.
     destruct (path_eqb p q) eqn:Epq; [|exact X]. apply path_eqb_eq in Epq. subst q. congruence.
   - intros q Hq. rewrite is_dir_nset. destruct (path_eqb p q) eqn:Epq; [|apply I; exact Hq].
     apply path_eqb_eq in Epq. subst q. congruence.
   - intros q r j Hr. rewrite nget_nset. destruct (path_eqb p q); [discriminate|]. apply J. exact Hr.
+  - exact L.
+  - exact M.
+  - auto.
   - reflexivity.
   - intros q j (Hlt & Hown). unfold owner. cbn [dw with_dw names next_ino dents set_names]. split; [exact Hlt|].
     destruct Hown as [X|(X1 & X2 & X3)].
@@ -274,12 +301,53 @@ Proof.
   - intros q off data j Hq. discriminate.
 Qed.
 
-(* ---- sync_file: the file's contents become its durable contents ---------------------------- *)
-Lemma Dur_sync_file s d g p i :
-  InvF s (dw d) g -> Dur s d g -> nget (names (dw d)) p = Some (EFile i) ->
-  Dur (fst (sync_file s p)) (data_sync d i) g.
+Lemma Dur_rmdir s d g gd p :
+  Dur s d g gd -> nget (names (dw d)) p = Some EDir ->
+  Dur (push s (PRemoveDir p)) (with_dw d (set_names (dw d) (ndel (names (dw d)) p))) g (p :: gd).
 Proof.
-  intros HI HD Hn. pose proof HD as [A Ap And B C D E F G H I J K L M N O P Q R].
+  intros HD Hn. pose proof HD as [A Ap And B C D E F G Gd G2 H I J K L M N O P Q R].
+  assert (Hpd : is_dir (dw d) p = true) by (apply is_dir_iff; exact Hn).
+  assert (Hpg : mem_path p g = false).
+  { destruct (mem_path p g) eqn:E0; [|reflexivity]. apply I in E0. congruence. }
+  eapply (Dur_push_gen s d g gd (PRemoveDir p) _ g (p :: gd) HD); cbn [dw with_dw names next_ino set_names dents].
+  - repeat split.
+  - intros q Hq. inversion Hq; subst q. rewrite mem_path_cons, path_eqb_refl. reflexivity.
+  - intros q Hq. rewrite mem_path_cons, Hq. apply orb_true_r.
+  - intros q Hq. discriminate.
+  - intros q j. rewrite nget_ndel. destruct (path_eqb p q); [discriminate|apply E].
+  - intros q Hq. destruct (F q Hq) as [X|X]; [left|right; exact X]. rewrite is_file_ndel.
+    destruct (path_eqb p q) eqn:Epq; [|exact X]. apply path_eqb_eq in Epq. subst q.
+    unfold is_file in X. rewrite Hn in X. discriminate.
+  - intros q Hq. rewrite mem_path_cons. destruct (path_eqb q p) eqn:Eqp; [right; reflexivity|].
+    destruct (G q Hq) as [X|X]; [left|right; exact X]. rewrite is_dir_ndel, path_eqb_sym, Eqp. exact X.
+  - intros q Hq. rewrite is_file_ndel. destruct (path_eqb p q) eqn:Epq; [reflexivity|].
+    rewrite mem_path_cons, path_eqb_sym, Epq in Hq. apply Gd. exact Hq.
+  - intros q Hq. rewrite mem_path_cons. destruct (path_eqb q p) eqn:Eqp.
+    + apply path_eqb_eq in Eqp. subst q. congruence.
+    + apply G2. exact Hq.
+  - intros q j Hq. destruct (H q j Hq) as [X|X]; [left|right; exact X]. rewrite nget_ndel.
+    destruct (path_eqb p q) eqn:Epq; [|exact X]. apply path_eqb_eq in Epq. subst q. congruence.
+  - intros q Hq. rewrite is_dir_ndel. destruct (path_eqb p q); [reflexivity|apply I; exact Hq].
+  - intros q r j Hr. rewrite nget_ndel. destruct (path_eqb p q); [discriminate|]. apply J. exact Hr.
+  - exact L.
+  - exact M.
+  - auto.
+  - reflexivity.
+  - intros q j (Hlt & Hown). unfold owner. cbn [dw with_dw names next_ino dents set_names]. split; [exact Hlt|].
+    destruct Hown as [X|(X1 & X2 & X3)].
+    + left. rewrite nget_ndel. destruct (path_eqb p q) eqn:Epq; [|exact X].
+      apply path_eqb_eq in Epq. subst q. congruence.
+    + right. split; [exact X1|]. split; [|exact X3].
+      intros r. rewrite nget_ndel. destruct (path_eqb p r); [discriminate|apply X2].
+  - intros q off data j Hq. discriminate.
+Qed.
+
+(* ---- sync_file: the file's contents become its durable contents ---------------------------- *)
+Lemma Dur_sync_file s d g gd p i :
+  InvF s (dw d) g -> Dur s d g gd -> nget (names (dw d)) p = Some (EFile i) ->
+  Dur (fst (sync_file s p)) (data_sync d i) g gd.
+Proof.
+  intros HI HD Hn. pose proof HD as [A Ap And B C D E F G Gd G2 H I J K L M N O P Q R].
   assert (Hex : file_exists s p = true) by (rewrite (inv_fx _ _ _ HI); apply is_file_iff; eauto).
   destruct (sync_file_views s p (inv_nr _ _ _ HI) Hex) as (_ & V1 & V2 & V3 & V4 & V5 & V6 & V7 & V8 & V9 & V10).
   set (s' := fst (sync_file s p)) in *.
@@ -347,7 +415,6 @@ Proof.
     intros q b Hin. rewrite V5. rewrite fold_filter_skip.
     + apply Q. apply Hsub. exact Hin.
     + intros o _ Ho a. apply (fx_step_data p). destruct (is_data_op p o); [reflexivity|discriminate].
-  - (* du_nd *) intros q Hin. apply (R q). apply Hsub. exact Hin.
 Qed.
 
 (* ---- sync_dir: the entries of the directory become durable ------------------------------------ *)
@@ -566,23 +633,99 @@ Proof.
   apply IH. destruct (nget nm q); [apply nodup_nset|]; exact H.
 Qed.
 
-Lemma Dur_sync_dir s d g dd :
-  InvF s (dw d) g -> Dur s d g -> nget (names (dw d)) dd = Some EDir ->
-  Dur (fst (sync_dir s dd)) (dir_sync d dd) g.
+(* membership in the synced set after one flushed op, for every kind of op *)
+Definition sy_step (dd q : path) (b : bool) (o : pop) : bool :=
+  match o with
+  | CreateFile p => if child_of p dd && path_eqb p q then true else b
+  | CreateDir p => if (path_eqb p dd || child_of p dd) && path_eqb p q then true else b
+  | PRemoveFile p | PRemoveDir p => if child_of p dd && path_eqb p q then false else b
+  | _ => b
+  end.
+
+Lemma mem_mark_synced_gen dd q l o : not_rename o = true ->
+  mem_path q (mark_synced dd l o) = sy_step dd q (mem_path q l) o.
 Proof.
-  intros HI HD Hdd. pose proof HD as [A Ap And B C D E F G H I J K L M N O P Q R].
+  intro Hr. destruct o; cbn [mark_synced sy_step not_rename] in *; try discriminate; try reflexivity.
+  - destruct (child_of p dd); cbn [andb]; [|reflexivity].
+    rewrite mem_padd, (path_eqb_sym q p). destruct (path_eqb p q); [apply orb_true_r|apply orb_false_r].
+  - destruct (path_eqb p dd || child_of p dd); cbn [andb]; [|reflexivity].
+    rewrite mem_padd, (path_eqb_sym q p). destruct (path_eqb p q); [apply orb_true_r|apply orb_false_r].
+  - destruct (child_of p dd); cbn [andb]; [|reflexivity].
+    rewrite mem_pdel, (path_eqb_sym q p). destruct (path_eqb p q); cbn; [apply andb_false_r|apply andb_true_r].
+  - destruct (child_of p dd); cbn [andb]; [|reflexivity].
+    rewrite mem_pdel, (path_eqb_sym q p). destruct (path_eqb p q); cbn; [apply andb_false_r|apply andb_true_r].
+Qed.
+
+Lemma fold_mark_synced_gen dd q : forall l sy, forallb not_rename l = true ->
+  mem_path q (fold_left (mark_synced dd) l sy) = fold_left (sy_step dd q) l (mem_path q sy).
+Proof.
+  induction l as [|o l IH]; intros sy H; cbn [fold_left]; [reflexivity|].
+  cbn in H. apply andb_true_iff in H as [Ho Hl]. rewrite IH by exact Hl.
+  rewrite mem_mark_synced_gen by exact Ho. reflexivity.
+Qed.
+
+Lemma sy_fold_child dd q : child_of q dd = true -> forall l b,
+  fold_left (sy_step dd q) l b = fold_left (ex_step q) l b.
+Proof.
+  intros Hc l. induction l as [|o l IH]; intro b; cbn [fold_left]; [reflexivity|].
+  rewrite IH. f_equal. destruct o; cbn; try reflexivity;
+    destruct (path_eqb p q) eqn:E; rewrite ?andb_false_r; try reflexivity;
+    apply path_eqb_eq in E; subst p; rewrite Hc, ?orb_true_r; reflexivity.
+Qed.
+
+Lemma sy_step_own dd b o :
+  sy_step dd dd b o = match o with CreateDir p => if path_eqb p dd then true else b | _ => b end.
+Proof.
+  destruct o; cbn [sy_step]; try reflexivity; destruct (path_eqb p dd) eqn:E; rewrite ?andb_false_r; try reflexivity;
+    apply path_eqb_eq in E; subst p; rewrite child_of_irrefl; reflexivity.
+Qed.
+
+Lemma sy_fold_own dd : forall l b,
+  fold_left (sy_step dd dd) l b = true <-> (b = true \/ In (CreateDir dd) l).
+Proof.
+  induction l as [|o l IH]; intro b; cbn [fold_left].
+  - split; [auto|intros [H|[]]; exact H].
+  - rewrite IH, sy_step_own. destruct o; try (split; [intros [H|H]; auto; right; right; exact H|intros [H|[H|H]]; auto; discriminate]).
+    destruct (path_eqb p dd) eqn:E.
+    + apply path_eqb_eq in E. subst p. split; [intros _; right; left; reflexivity|intros _; left; reflexivity].
+    + split; [intros [H|H]; auto; right; right; exact H|].
+      intros [H|[H|H]]; auto. inversion H; subst p. rewrite path_eqb_refl in E. discriminate.
+Qed.
+
+Lemma sy_fold_other dd q : child_of q dd = false -> path_eqb q dd = false -> forall l b,
+  fold_left (sy_step dd q) l b = b.
+Proof.
+  intros Hc Hq l b. apply fold_left_id_in. intros a o _.
+  destruct o; cbn; try reflexivity; destruct (path_eqb p q) eqn:E; rewrite ?andb_false_r; try reflexivity;
+    apply path_eqb_eq in E; subst p; rewrite Hc, ?Hq; reflexivity.
+Qed.
+
+(* ex_step and dx_step agree on lists without file operations on the key *)
+Lemma ex_fold_dx q : forall l b, ~ In (CreateFile q) l -> ~ In (PRemoveFile q) l ->
+  fold_left (ex_step q) l b = fold_left (dx_step q) l b.
+Proof.
+  induction l as [|o l IH]; intros b H1 H2; cbn [fold_left]; [reflexivity|].
+  rewrite IH by (intro; first [apply H1; right; assumption|apply H2; right; assumption]). f_equal.
+  destruct o; cbn; try reflexivity; destruct (path_eqb p q) eqn:E; try reflexivity;
+    apply path_eqb_eq in E; subst p; exfalso;
+    first [apply H1; left; reflexivity|apply H2; left; reflexivity].
+Qed.
+
+Lemma Dur_sync_dir s d g gd dd :
+  InvF s (dw d) g -> Dur s d g gd -> nget (names (dw d)) dd = Some EDir ->
+  Dur (fst (sync_dir s dd)) (dir_sync d dd) g gd.
+Proof.
+  intros HI HD Hdd. pose proof HD as [A Ap And B C D E F G Gd G2 H I J K L M N O P Q R].
   pose proof HI as [iA iB iC iD iE iF iG iH iI iJ].
   set (t := dw d) in *.
   assert (Hex : dir_exists s dd = true) by (rewrite iC; apply is_dir_iff; exact Hdd).
   destruct (sync_dir_views s dd iA Hex) as (_ & V1 & V2 & V3 & V4 & V5 & V6 & V7).
   set (flush := filter (is_entry_op dd) (pending s)) in *.
   set (s' := fst (sync_dir s dd)) in *.
-  (* the synced set *)
-  assert (Vsy : forall q, mem_path q (synced s') = fold_left (ex_step q) flush (mem_path q (synced s))).
+  assert (Hflnr : forallb not_rename flush = true) by (apply forallb_filter; exact iA).
+  assert (Vsy : forall q, mem_path q (synced s') = fold_left (sy_step dd q) flush (mem_path q (synced s))).
   { intro q. unfold s', sync_dir. rewrite Hex. cbn [negb fst]. rewrite fold_sd_synced. cbn [synced set_pending].
-    apply fold_mark_synced. intros o Ho. apply filter_In in Ho as [Ho He].
-    split; [apply (norename_in s iA); exact Ho|]. split; [|exact He].
-    destruct o; try reflexivity. exfalso. eapply R. exact Ho. }
+    apply fold_mark_synced_gen. exact Hflnr. }
   assert (Vbs : bsize s' = bsize s).
   { unfold s', sync_dir. rewrite Hex. cbn [negb fst]. rewrite fold_sd_bsize. reflexivity. }
   assert (Hfl_in : forall o, In o flush -> In o (pending s) /\ is_entry_op dd o = true)
@@ -595,21 +738,46 @@ Proof.
   { intros o Ho He. rewrite V5. apply filter_In. split; [exact Ho|]. rewrite He. reflexivity. }
   assert (Hnorm : forall q, mem_path q g = false -> ~ In (PRemoveFile q) (pending s)).
   { intros q Hq Hin. apply iF in Hin. congruence. }
+  assert (Hnormd : forall q, mem_path q gd = false -> ~ In (PRemoveDir q) (pending s)).
+  { intros q Hq Hin. apply R in Hin. congruence. }
   assert (Hgn : forall q, mem_path q g = true -> nget (names t) q = None).
   { intros q Hq. apply nget_none_iff. split; [apply iG; exact Hq|apply I; exact Hq]. }
-  (* a pending create without a pending removal means the entry exists *)
   assert (Hcf : forall q, In (CreateFile q) (pending s) -> mem_path q g = false -> is_file t q = true).
   { intros q Hin Hq. rewrite <- iB, (file_exists_nr s q iA). apply fx_fold_noremove; [apply Hnorm; exact Hq|right; exact Hin]. }
-  assert (Hcd : forall q, In (CreateDir q) (pending s) -> is_dir t q = true).
-  { intros q Hin. rewrite <- iC, (dir_exists_nr s q iA). apply dx_fold_noremove; [apply R|right; exact Hin]. }
-  assert (Hcdg : forall q, In (CreateDir q) (pending s) -> mem_path q g = false).
-  { intros q Hin. destruct (mem_path q g) eqn:E0; [|reflexivity]. apply I in E0. apply Hcd in Hin. congruence. }
-  (* flushed folds for a path that is neither dd nor a child of dd *)
+  assert (Hcd : forall q, In (CreateDir q) (pending s) -> mem_path q gd = false -> is_dir t q = true).
+  { intros q Hin Hq. rewrite <- iC, (dir_exists_nr s q iA). apply dx_fold_noremove; [apply Hnormd; exact Hq|right; exact Hin]. }
+  (* kinds exclude each other *)
+  assert (Kfile : forall q, is_dir t q = true \/ mem_path q gd = true ->
+            ~ In (CreateFile q) (pending s) /\ ~ In (PRemoveFile q) (pending s)).
+  { intros q Hk.
+    assert (Hqg : mem_path q g = false).
+    { destruct (mem_path q g) eqn:E0; [|reflexivity]. destruct Hk as [X|X]; [apply I in E0; congruence|apply G2 in E0; congruence]. }
+    split; [|apply Hnorm; exact Hqg].
+    intro Hin. apply Hcf in Hin; [|exact Hqg]. destruct Hk as [X|X].
+    - unfold is_file, is_dir in *. destruct (nget (names t) q) as [[|?]|]; discriminate.
+    - apply Gd in X. congruence. }
+  assert (Kdir : forall q, is_file t q = true \/ mem_path q g = true ->
+            ~ In (CreateDir q) (pending s) /\ ~ In (PRemoveDir q) (pending s)).
+  { intros q Hk.
+    assert (Hqg : mem_path q gd = false).
+    { destruct (mem_path q gd) eqn:E0; [|reflexivity]. destruct Hk as [X|X]; [apply Gd in E0; congruence|apply G2 in X; congruence]. }
+    split; [|apply Hnormd; exact Hqg].
+    intro Hin. apply Hcd in Hin; [|exact Hqg]. destruct Hk as [X|X].
+    - unfold is_file, is_dir in *. destruct (nget (names t) q) as [[|?]|]; discriminate.
+    - apply I in X. congruence. }
+  (* for a directory-kind path the entry is synced iff the directory is persisted *)
+  assert (Hdk : forall q, is_dir t q = true \/ mem_path q gd = true -> mem_path q (synced s) = mem_path q (pdirs s)).
+  { intros q Hk. destruct (mem_path q (pdirs s)) eqn:Ep; [apply O; exact Ep|].
+    rewrite B. destruct (nget (dents d) q) as [[|i]|] eqn:Ed; cbn [some]; [|exfalso|reflexivity].
+    - apply D in Ed. congruence.
+    - destruct (H q i Ed) as [X|X].
+      + fold t in X. destruct Hk as [Y|Y]; [unfold is_dir in Y; rewrite X in Y; discriminate|].
+        apply Gd in Y. unfold is_file in Y. rewrite X in Y. discriminate.
+      + destruct Hk as [Y|Y]; [apply I in X; congruence|apply G2 in X; congruence]. }
   assert (Hother : forall q, child_of q dd = false -> path_eqb q dd = false ->
             forall o, In o flush -> o <> CreateFile q /\ o <> CreateDir q /\ o <> PRemoveFile q /\ o <> PRemoveDir q).
   { intros q Hc Hq o Ho. apply Hfl_in in Ho as [_ He].
     repeat split; intro; subst o; cbn in He; rewrite ?Hc, ?Hq in He; discriminate. }
-  (* the entry set for a gone child: false *)
   assert (Hgone_fx : forall q b, mem_path q g = true -> child_of q dd = true ->
             (b = false \/ In (PRemoveFile q) (pending s)) -> In (PRemoveFile q) (pending s) \/ ~ In (CreateFile q) (pending s) ->
             fold_left (fx_step q) flush b = false).
@@ -620,49 +788,57 @@ Proof.
     destruct Hb as [->|Hrf]; [|apply Q; exact Hrf].
     destruct (fold_left (fx_step q) (pending s) false) eqn:E0; [|reflexivity].
     apply fx_fold_src in E0 as [?|?]; [discriminate|contradiction]. }
-  assert (Hgone_ex : forall q b, mem_path q g = true -> fold_left (ex_step q) flush b = fold_left (fx_step q) flush b).
-  { intros q b Hq. apply ex_fold_fx.
-    - intro Hin. apply Hfl_in in Hin as [Hin _]. apply Hcdg in Hin. congruence.
-    - intro Hin. apply Hfl_in in Hin as [Hin _]. eapply R. exact Hin. }
-  (* persisted tables after the flush, by position of the path *)
+  assert (Hfk_ex : forall q b, is_file t q = true \/ mem_path q g = true ->
+            fold_left (ex_step q) flush b = fold_left (fx_step q) flush b).
+  { intros q b Hk. destruct (Kdir q Hk) as [X1 X2]. apply ex_fold_fx.
+    - intro Hin. apply Hfl_in in Hin as [Hin _]. contradiction.
+    - intro Hin. apply Hfl_in in Hin as [Hin _]. contradiction. }
+  assert (Wpd_all : forall q, path_eqb q dd || child_of q dd = true -> mem_path q (pdirs s') = dir_exists s q).
+  { intros q Hc. rewrite V7, (dir_exists_nr s q iA). unfold flush. apply fold_filter_skip.
+    intros o _ Ho a. apply (dx_step_entry dd). rewrite Ho, Hc. reflexivity. }
   assert (Wsy_child : forall q, child_of q dd = true -> mem_path q (synced s') = some (nget (names t) q)).
-  { intros q Hc. rewrite Vsy. destruct (mem_path q g) eqn:Hq.
-    - rewrite (Hgn q Hq). cbn [some]. rewrite Hgone_ex by exact Hq.
-      destruct (P q Hq) as [X|(X1 & X2 & X3)].
-      + apply Hgone_fx; auto.
-      + apply Hgone_fx; auto.
-    - destruct (nget (names t) q) as [[|i]|] eqn:En; cbn [some].
-      + apply ex_fold_noremove.
-        * intro Hin. apply Hfl_in in Hin as [Hin _]. apply (Hnorm q Hq). exact Hin.
-        * intro Hin. apply Hfl_in in Hin as [Hin _]. eapply R. exact Hin.
-        * assert (Hdx : dir_exists s q = true) by (rewrite iC; apply is_dir_iff; exact En).
-          destruct (dir_exists_src s q iA Hdx) as [X|X].
-          -- left. apply O. exact X.
-          -- right; right. apply Hfl_of; [exact X|]. cbn. rewrite Hc. apply orb_true_r.
-      + apply ex_fold_noremove.
-        * intro Hin. apply Hfl_in in Hin as [Hin _]. apply (Hnorm q Hq). exact Hin.
-        * intro Hin. apply Hfl_in in Hin as [Hin _]. eapply R. exact Hin.
-        * assert (Hfx : file_exists s q = true) by (rewrite iB; apply is_file_iff; eauto).
-          destruct (file_exists_src s q iA Hfx) as [X|X].
-          -- destruct (N q X) as [Y|Y]; [right; left; apply Hfl_of; [exact Y|exact Hc]|left; exact Y].
-          -- right; left. apply Hfl_of; [exact X|exact Hc].
-      + destruct (fold_left (ex_step q) flush (mem_path q (synced s))) eqn:E0; [|reflexivity]. exfalso.
-        apply ex_fold_src in E0 as [X|[X|X]].
-        * rewrite B in X. destruct (nget (dents d) q) as [[|j]|] eqn:Ed; try discriminate.
-          -- apply D in Ed. apply G in Ed. unfold is_dir in Ed. fold t in Ed. rewrite En in Ed. discriminate.
-          -- destruct (H q j Ed) as [Y|Y]; [fold t in Y; congruence|congruence].
-        * apply Hfl_in in X as [X _]. apply Hcf in X; [|exact Hq]. unfold is_file in X. rewrite En in X. discriminate.
-        * apply Hfl_in in X as [X _]. apply Hcd in X. unfold is_dir in X. rewrite En in X. discriminate. }
+  { intros q Hc. rewrite Vsy, (sy_fold_child dd q Hc).
+    destruct (nget (names t) q) as [[|i]|] eqn:En; cbn [some].
+    - (* directory *)
+      assert (Hk : is_dir t q = true \/ mem_path q gd = true) by (left; apply is_dir_iff; exact En).
+      destruct (Kfile q Hk) as [X1 X2].
+      rewrite ex_fold_dx by (intro Hin; apply Hfl_in in Hin as [Hin _]; contradiction).
+      rewrite (Hdk q Hk), <- V7, Wpd_all by (rewrite Hc; apply orb_true_r). rewrite iC. apply is_dir_iff. exact En.
+    - (* file *)
+      assert (Hk : is_file t q = true \/ mem_path q g = true) by (left; apply is_file_iff; eauto).
+      assert (Hq : mem_path q g = false).
+      { destruct (mem_path q g) eqn:E0; [|reflexivity]. rewrite (Hgn q E0) in En. discriminate. }
+      rewrite (Hfk_ex q _ Hk). apply fx_fold_noremove.
+      + intro Hin. apply Hfl_in in Hin as [Hin _]. apply (Hnorm q Hq). exact Hin.
+      + assert (Hfx : file_exists s q = true) by (rewrite iB; apply is_file_iff; eauto).
+        destruct (file_exists_src s q iA Hfx) as [X|X].
+        * destruct (N q X) as [Y|Y]; [right; apply Hfl_of; [exact Y|exact Hc]|left; exact Y].
+        * right. apply Hfl_of; [exact X|exact Hc].
+    - (* nothing *)
+      destruct (mem_path q g) eqn:Hq.
+      + rewrite (Hfk_ex q _ (or_intror Hq)).
+        destruct (P q Hq) as [X|(X1 & X2 & X3)]; apply Hgone_fx; auto.
+      + destruct (mem_path q gd) eqn:Hqd.
+        * assert (Hk : is_dir t q = true \/ mem_path q gd = true) by (right; exact Hqd).
+          destruct (Kfile q Hk) as [X1 X2].
+          rewrite ex_fold_dx by (intro Hin; apply Hfl_in in Hin as [Hin _]; contradiction).
+          rewrite (Hdk q Hk), <- V7, Wpd_all by (rewrite Hc; apply orb_true_r). rewrite iC.
+          unfold is_dir. fold t. rewrite En. reflexivity.
+        * destruct (fold_left (ex_step q) flush (mem_path q (synced s))) eqn:E0; [|reflexivity]. exfalso.
+          apply ex_fold_src in E0 as [X|[X|X]].
+          -- rewrite B in X. destruct (nget (dents d) q) as [[|j]|] eqn:Ed; try discriminate.
+             ++ apply D in Ed. destruct (G q Ed) as [Y|Y]; [unfold is_dir in Y; fold t in Y; rewrite En in Y; discriminate|congruence].
+             ++ destruct (H q j Ed) as [Y|Y]; [fold t in Y; congruence|congruence].
+          -- apply Hfl_in in X as [X _]. apply Hcf in X; [|exact Hq]. unfold is_file in X. rewrite En in X. discriminate.
+          -- apply Hfl_in in X as [X _]. apply Hcd in X; [|exact Hqd]. unfold is_dir in X. rewrite En in X. discriminate. }
   assert (Wsy_own : mem_path dd (synced s') = true).
-  { rewrite Vsy. apply ex_fold_noremove.
-    - intro Hin. apply Hfl_in in Hin as [_ He]. cbn in He. rewrite child_of_irrefl in He. discriminate.
-    - intro Hin. apply Hfl_in in Hin as [Hin _]. eapply R. exact Hin.
-    - destruct (dir_exists_src s dd iA Hex) as [X|X].
-      + left. apply O. exact X.
-      + right; right. apply Hfl_of; [exact X|]. cbn. rewrite path_eqb_refl. reflexivity. }
+  { rewrite Vsy. apply sy_fold_own.
+    destruct (dir_exists_src s dd iA Hex) as [X|X].
+    - left. apply O. exact X.
+    - right. apply Hfl_of; [exact X|]. cbn. rewrite path_eqb_refl. reflexivity. }
   assert (Wsy_other : forall q, child_of q dd = false -> path_eqb q dd = false ->
             mem_path q (synced s') = mem_path q (synced s)).
-  { intros q Hc Hq. rewrite Vsy. apply ex_fold_nokey. apply Hother; assumption. }
+  { intros q Hc Hq. rewrite Vsy. apply sy_fold_other; assumption. }
   assert (Wpf_other : forall q, child_of q dd = false -> fget (pfiles s') q = fget (pfiles s) q).
   { intros q Hc. rewrite V6. apply aop_fold_nokey. intros o Ho. apply Hfl_in in Ho as [_ He].
     repeat split; try (intro; subst o; cbn in He; rewrite Hc in He; discriminate).
@@ -679,16 +855,13 @@ Proof.
     destruct (P q Hq) as [X|(X1 & X2 & X3)].
     - apply Hgone_fx; auto.
     - rewrite X3. apply Hgone_fx; auto. }
-  assert (Wpd : forall q, mem_path q (pdirs s') = true -> is_dir t q = true).
+  assert (Wpd : forall q, mem_path q (pdirs s') = true -> is_dir t q = true \/ mem_path q gd = true).
   { intros q Hq. rewrite V7 in Hq. apply dx_fold_src in Hq as [X|X]; [apply G; exact X|].
-    apply Hfl_in in X as [X _]. apply Hcd. exact X. }
-  assert (Wpd_all : forall q, path_eqb q dd || child_of q dd = true -> mem_path q (pdirs s') = dir_exists s q).
-  { intros q Hc. rewrite V7, (dir_exists_nr s q iA). unfold flush. apply fold_filter_skip.
-    intros o _ Ho a. apply (dx_step_entry dd). rewrite Ho, Hc. reflexivity. }
+    apply Hfl_in in X as [X _]. destruct (mem_path q gd) eqn:Hqd; [right; reflexivity|left; apply Hcd; assumption]. }
   assert (Wpd_other : forall q, child_of q dd = false -> path_eqb q dd = false ->
             mem_path q (pdirs s') = mem_path q (pdirs s)).
   { intros q Hc Hq. rewrite V7. apply dx_fold_nokey. intros o Ho. destruct (Hother q Hc Hq o Ho) as (_ & X & _ & Y). auto. }
-  constructor; cbn [dw dir_sync ddata dbs]; fold t.
+  constructor; cbn [dw dir_sync ddata dbs dpend]; fold t.
   - (* du_bs *) rewrite Vbs. exact A.
   - (* du_pend *)
     rewrite V5, pwrites_filter_keep by (intros o Ho; destruct o; try discriminate; reflexivity).
@@ -758,6 +931,8 @@ Proof.
     + unfold has_file in Hq. rewrite Wpf_other in Hq by exact Hc.
       destruct (F q Hq) as [X|X]; [exact X|congruence].
   - (* du_pd *) exact Wpd.
+  - (* du_kd *) exact Gd.
+  - (* du_k2 *) exact G2.
   - (* du_ef *)
     intros q i. rewrite nget_dir_sync. fold t. destruct (child_of q dd); [intro Hn; left; exact Hn|].
     destruct (path_eqb q dd); [discriminate|]. apply H.
@@ -794,8 +969,9 @@ Proof.
       * right. destruct (path_eqb q dd) eqn:Eq; [apply path_eqb_eq in Eq; subst q; exact Wsy_own|].
         rewrite Wsy_other by assumption. exact X.
   - (* du_z2 *)
-    intros q Hq. pose proof (Wpd q Hq) as Hd. destruct (child_of q dd) eqn:Hc.
-    + rewrite (Wsy_child q Hc). apply is_dir_iff in Hd. rewrite Hd. reflexivity.
+    intros q Hq. destruct (child_of q dd) eqn:Hc.
+    + rewrite (Wsy_child q Hc). rewrite Wpd_all in Hq by (rewrite Hc; apply orb_true_r).
+      rewrite iC in Hq. apply is_dir_iff in Hq. rewrite Hq. reflexivity.
     + destruct (path_eqb q dd) eqn:Eq; [apply path_eqb_eq in Eq; subst q; exact Wsy_own|].
       rewrite Wsy_other by assumption. apply O. rewrite <- Wpd_other by assumption. exact Hq.
   - (* du_g1 *)
@@ -815,7 +991,7 @@ Proof.
     intros q b Hin. pose proof (Hkeep_in _ Hin) as [Hp He]. cbn in He.
     rewrite V5. rewrite fold_filter_skip; [apply Q; exact Hp|].
     intros o _ Ho a. apply (fx_step_entry dd). rewrite He. cbn. destruct (is_entry_op dd o); [reflexivity|discriminate].
-  - (* du_nd *) intros q Hin. apply Hkeep_in in Hin as [Hin _]. eapply R. exact Hin.
+  - (* du_rd *) intros q Hin. apply Hkeep_in in Hin as [Hin _]. apply R. exact Hin.
 Qed.
 
 (* ---- crash ------------------------------------------------------------------------------------------ *)
@@ -897,14 +1073,16 @@ Definition crel (s : fs) (d : dworld) (o : pop) (w : N * nat * bytes) : Prop :=
     mem_path p (synced s) = durable_ino (dents d) i /\
     (mem_path p (synced s) = true -> nget (dents d) p = Some (EFile i)).
 
-Lemma wrel_crel s d g o w : InvF s (dw d) g -> Dur s d g -> wrel d g o w -> crel s d o w.
+Lemma wrel_crel s d g gd o w : InvF s (dw d) g -> Dur s d g gd -> wrel d g o w -> crel s d o w.
 Proof.
   intros HI HD (p & off & data & i & X1 & X2 & X3 & (Hlt & X4)).
-  pose proof HD as [A Ap And B C D E F G H I J K L M N O P Q R].
+  pose proof HD as [A Ap And B C D E F G Gd G2 H I J K L M N O P Q R].
   exists p, off, data, i. split; [exact X1|]. split; [exact X2|]. split; [exact X3|].
   rewrite B. destruct X4 as [Y|(Y1 & Y2 & [Y3|[Y3 Y4]])].
   - destruct (nget (dents d) p) as [[|j]|] eqn:Ed; cbn [some].
-    + exfalso. apply D in Ed. apply G in Ed. unfold is_dir in Ed. rewrite Y in Ed. discriminate.
+    + exfalso. apply D in Ed. destruct (G p Ed) as [Z|Z].
+      * unfold is_dir in Z. rewrite Y in Z. discriminate.
+      * apply Gd in Z. unfold is_file in Z. rewrite Y in Z. discriminate.
     + destruct (H p j Ed) as [Z|Z].
       * rewrite Y in Z. inversion Z; subst j. split; [|reflexivity].
         symmetry. apply durable_ino_iff; [exact And|eauto].
@@ -990,11 +1168,11 @@ Proof.
     + apply IH; auto.
 Qed.
 
-Lemma crash_refines s d g draws :
-  InvF s (dw d) g -> Dur s d g -> dangling d = false ->
-  InvF (crash s draws) (dw (dcrash d draws)) [] /\ Dur (crash s draws) (dcrash d draws) [].
+Lemma crash_refines s d g gd draws :
+  InvF s (dw d) g -> Dur s d g gd -> dangling d = false ->
+  InvF (crash s draws) (dw (dcrash d draws)) [] /\ Dur (crash s draws) (dcrash d draws) [] [].
 Proof.
-  intros HI HD Hdg. pose proof HD as [A Ap And B C D E F G H I J K L M N O P Q R].
+  intros HI HD Hdg. pose proof HD as [A Ap And B C D E F G Gd G2 H I J K L M N O P Q R].
   assert (Hents : filter (fun x => reachable (dents d) (fst x)) (dents d) = dents d).
   { apply filter_all. unfold dangling in Hdg. apply negb_false_iff in Hdg. exact Hdg. }
   assert (Hreach : forall p e, nget (dents d) p = Some e -> reachable (dents d) p = true).
@@ -1039,9 +1217,12 @@ Proof.
     - pose proof (Fhf q) as Xh. unfold has_file in Xh.
       destruct (fget (pfiles s1) q) eqn:Ef; [|reflexivity]. exfalso.
       pose proof (G q (D q Ed)) as Hdir.
-      destruct (F q) as [X|X]; [unfold has_file; destruct (fget (pfiles s) q); [reflexivity|discriminate]| |].
+      destruct (F q) as [X|X]; [unfold has_file; destruct (fget (pfiles s) q); [reflexivity|discriminate]| |];
+        destruct Hdir as [Y|Y].
       + unfold is_file, is_dir in *. destruct (nget (names (dw d)) q) as [[|?]|]; discriminate.
+      + apply Gd in Y. congruence.
       + apply I in X. congruence.
+      + apply G2 in X. congruence.
     - rewrite (HLI q i Ed). reflexivity.
     - reflexivity. }
   assert (Hdx : forall q, dir_exists s' q = match nget (dents d) q with Some EDir => true | _ => false end).
@@ -1050,9 +1231,11 @@ Proof.
     - rewrite (D q Ed). reflexivity.
     - rewrite andb_true_r. destruct (mem_path q (pdirs s)) eqn:Em; [|reflexivity]. exfalso.
       pose proof (G q Em) as Hdir.
-      destruct (H q i Ed) as [X|X].
-      + unfold is_dir in Hdir. rewrite X in Hdir. discriminate.
+      destruct (H q i Ed) as [X|X]; destruct Hdir as [Y|Y].
+      + unfold is_dir in Y. rewrite X in Y. discriminate.
+      + apply Gd in Y. unfold is_file in Y. rewrite X in Y. discriminate.
       + apply I in X. congruence.
+      + apply G2 in X. congruence.
     - apply andb_false_r. }
   assert (Himg : forall q i, nget (dents d) q = Some (EFile i) -> iget (image_files cnt (dents d)) i = iget cnt i).
   { intros q i Hq. rewrite iget_image, (nget_has_ino _ q i Hq). reflexivity. }
@@ -1090,9 +1273,11 @@ Proof.
     + intros q Hq. left. change (has_file (pfiles s') q = true) in Hq.
       pose proof (Hfx q) as X. unfold file_exists in X. cbn [pending s' fold_left] in X. rewrite Hq in X.
       unfold is_file. cbn [names]. destruct (nget (dents d) q) as [[|?]|]; try discriminate. reflexivity.
-    + intros q Hq. change (mem_path q (pdirs s') = true) in Hq.
+    + intros q Hq. left. change (mem_path q (pdirs s') = true) in Hq.
       pose proof (Hdx q) as X. unfold dir_exists in X. cbn [pending s' fold_left] in X. rewrite Hq in X.
       unfold is_dir. cbn [names]. destruct (nget (dents d) q) as [[|?]|]; try discriminate. reflexivity.
+    + discriminate.
+    + discriminate.
     + intros q i Hq. left. exact Hq.
     + discriminate.
     + intros p q i Hq Hp. eapply K; eauto.
@@ -1112,8 +1297,8 @@ Proof.
 Qed.
 
 (* ---- one step of the durable simulation ------------------------------------------------------------ *)
-Definition DInv (w : world) (d : dworld) (g : list path) : Prop :=
-  InvF (wfs w) (dw d) g /\ HRel (whs w) (shs (dw d)) /\ Dur (wfs w) d g.
+Definition DInv (w : world) (d : dworld) (g gd : list path) : Prop :=
+  InvF (wfs w) (dw d) g /\ HRel (whs w) (shs (dw d)) /\ Dur (wfs w) d g gd.
 
 Lemma with_dw_id d : with_dw d (dw d) = d.
 Proof. destruct d; reflexivity. Qed.
@@ -1127,9 +1312,9 @@ Proof. unfold add_pend. destruct data; repeat split. Qed.
 Lemma dw_add_pend d i off data : dw (add_pend d i off data) = dw d.
 Proof. unfold add_pend. destruct data; reflexivity. Qed.
 
-Lemma Dur_tree s d g t1 :
-  Dur s d g -> names t1 = names (dw d) -> next_ino t1 = next_ino (dw d) -> Dur s (with_dw d t1) g.
-Proof. intros HD Hn Hx. exact (Dur_ext s d (with_dw d t1) g HD (same_shadow_with_dw d t1) eq_refl Hn Hx). Qed.
+Lemma Dur_tree s d g gd t1 :
+  Dur s d g gd -> names t1 = names (dw d) -> next_ino t1 = next_ino (dw d) -> Dur s (with_dw d t1) g gd.
+Proof. intros HD Hn Hx. exact (Dur_ext s d (with_dw d t1) g gd HD (same_shadow_with_dw d t1) eq_refl Hn Hx). Qed.
 
 Lemma dstep_tree d o : (forall x, o <> Crash x) ->
   dw (fst (dstep d o)) = fst (sstep (dw d) o) /\ snd (dstep d o) = snd (sstep (dw d) o).
@@ -1192,11 +1377,12 @@ Qed.
 
 Ltac same_tree HD := apply Dur_tree; [exact HD|reflexivity|reflexivity].
 
-Lemma dur_open s hs d g slot p r w a tr c n :
-  InvF s (dw d) g -> Dur s d g -> op_classes (dw d) g (Open slot p r w a tr c n) = [] ->
-  Dur (wfs (fst (step (mkWorld s hs) (Open slot p r w a tr c n)))) (fst (dstep d (Open slot p r w a tr c n))) g.
+Lemma dur_open s hs d g gd slot p r w a tr c n :
+  InvF s (dw d) g -> Dur s d g gd -> op_classes (dw d) g (Open slot p r w a tr c n) = [] ->
+  kind_swap (dw d) g gd (Open slot p r w a tr c n) = false ->
+  Dur (wfs (fst (step (mkWorld s hs) (Open slot p r w a tr c n)))) (fst (dstep d (Open slot p r w a tr c n))) g gd.
 Proof.
-  intros HF HD Hcl. cbn [op_classes] in Hcl.
+  intros HF HD Hcl Hks. cbn [op_classes] in Hcl. cbn [kind_swap] in Hks.
   apply app_eq_nil in Hcl as [_ Hrc]. apply when_nil in Hrc.
   set (t := dw d) in *.
   assert (Hd : fst (dstep d (Open slot p r w a tr c n)) = with_dw d (fst (sstep t (Open slot p r w a tr c n)))).
@@ -1217,7 +1403,7 @@ Proof.
     assert (Htw : tr && w = tr).
     { destruct tr; [|reflexivity]. rewrite (valid_trunc_write _ _ _ _ _ _ Hv eq_refl eq_refl). reflexivity. }
     rewrite Htw. destruct tr; cbn [wfs fst].
-    + eapply (Dur_data s d g (PSetLen p 0) _ p HD);
+    + eapply (Dur_data s d g gd (PSetLen p 0) _ p HD);
         [apply same_shadow_with_dw|reflexivity|reflexivity|cbn; apply path_eqb_refl|reflexivity|apply (inv_bound _ _ _ HF)].
     + same_tree HD.
   - assert (Hf : is_file t p = false) by (unfold is_file; rewrite En; reflexivity).
@@ -1225,10 +1411,10 @@ Proof.
     rewrite Hf, andb_false_r, Hdx, andb_false_r. rewrite (parent_exists_inv s t g p HF).
     destruct (parent_is_dir t p) eqn:Hpar; cbn [negb].
     + destruct (c || n) eqn:Ecn; cbn [fst snd wfs]; [|same_tree HD].
-      cbn in Hrc.
-      pose proof (Dur_create s d g p HF HD En Hrc) as HC. fold t in HC.
+      cbn in Hrc. cbn in Hks.
+      pose proof (Dur_create s d g gd p HF HD En Hrc Hks) as HC. fold t in HC.
       destruct (tr && w); cbn [wfs fst].
-      * eapply (Dur_data _ _ g (PSetLen p 0) _ p HC);
+      * eapply (Dur_data _ _ g gd (PSetLen p 0) _ p HC);
           [repeat split|reflexivity|reflexivity|cbn; apply path_eqb_refl|reflexivity|].
         apply (inv_bound _ _ _ (InvF_create s t g p HF En Hpar Hrc)).
       * eapply Dur_ext; [exact HC|repeat split|reflexivity|reflexivity|reflexivity].
@@ -1236,21 +1422,21 @@ Proof.
       rewrite Hcn. cbn [fst snd wfs]. same_tree HD.
 Qed.
 
-Lemma dur_write_at s d g h sh off data coin t1 :
-  Dur s d g -> hrel h sh -> hw h = true ->
+Lemma dur_write_at s d g gd h sh off data coin t1 :
+  Dur s d g gd -> hrel h sh -> hw h = true ->
   names t1 = names (dw d) -> next_ino t1 = next_ino (dw d) ->
   nget (names (dw d)) (spath sh) = Some (EFile (sino sh)) ->
   InvF (fst (write_at s h off data false)) t1 g ->
   Dur (fst (write_at s h off data coin))
-      (let d' := add_pend (with_dw d t1) (sino sh) off data in if coin then data_sync d' (sino sh) else d') g.
+      (let d' := add_pend (with_dw d t1) (sino sh) off data in if coin then data_sync d' (sino sh) else d') g gd.
 Proof.
   intros HD (Hp & _) Hw Hn Hx Hino HI1. unfold write_at in *. rewrite Hw in *. cbn [negb fst snd] in *. rewrite Hp in *.
   set (s1 := match data with [] => s | _ :: _ => push s (PWrite (spath sh) off data) end) in *.
   set (d' := add_pend (with_dw d t1) (sino sh) off data).
-  assert (H1 : Dur s1 d' g).
+  assert (H1 : Dur s1 d' g gd).
   { unfold s1, d'. destruct data as [|b data].
     - cbn [add_pend]. apply Dur_tree; assumption.
-    - eapply (Dur_data s d g _ _ (spath sh) HD); [repeat split|exact Hn|exact Hx|cbn; apply path_eqb_refl| |].
+    - eapply (Dur_data s d g gd _ _ (spath sh) HD); [repeat split|exact Hn|exact Hx|cbn; apply path_eqb_refl| |].
       + cbn [pend_step add_pend dw with_dw dpend]. exists (sino sh). split; [rewrite Hn; exact Hino|].
         split; [discriminate|reflexivity].
       + intros q j Hq. rewrite <- Hn in Hq. rewrite <- Hx. apply (inv_bound _ _ _ HI1 q j Hq). }
@@ -1259,13 +1445,13 @@ Proof.
   unfold d'. rewrite dw_add_pend. cbn [dw with_dw]. rewrite Hn. exact Hino.
 Qed.
 
-Lemma dur_handle_ops s hs d g o :
-  InvF s (dw d) g -> HRel hs (shs (dw d)) -> Dur s d g -> op_classes (dw d) g o = [] ->
+Lemma dur_handle_ops s hs d g gd o :
+  InvF s (dw d) g -> HRel hs (shs (dw d)) -> Dur s d g gd -> op_classes (dw d) g o = [] ->
   match o with
   | WriteAt _ _ _ _ | Write _ _ _ | SetLen _ _ _ | SyncAll _ | SyncData _ => True
   | _ => False
   end ->
-  Dur (wfs (fst (step (mkWorld s hs) o))) (fst (dstep d o)) g.
+  Dur (wfs (fst (step (mkWorld s hs) o))) (fst (dstep d o)) g gd.
 Proof.
   intros HF HH HD Hcl Hop. set (t := dw d) in *.
   destruct o; try contradiction; clear Hop; cbn [op_classes] in Hcl; apply when_nil in Hcl;
@@ -1277,7 +1463,7 @@ Proof.
       pose proof Hrel as (Hp & Hr & Hw & Ha & Hpos). rewrite <- Hw.
       destruct (hw h) eqn:Ehw; cbn [negb].
       * destruct (write_at_refines s t g h sh (N.to_nat off) data false HF Hrel Hn Ehw) as [A _].
-        pose proof (dur_write_at s d g h sh (N.to_nat off) data coin
+        pose proof (dur_write_at s d g gd h sh (N.to_nat off) data coin
                       (set_inode t (sino sh) (pwrite (iget (inodes t) (sino sh)) (N.to_nat off) data))
                       HD Hrel Ehw eq_refl eq_refl Hn A) as X.
         destruct (write_at s h (N.to_nat off) data coin) as [s1 [k|e]] eqn:Ew; cbn [fst snd is_err wfs with_fs] in *.
@@ -1298,7 +1484,7 @@ Proof.
         set (t1 := set_shs (set_inode t (sino sh) (pwrite (iget (inodes t) (sino sh)) off data))
                            (sset (shs t) slot (sset_pos sh (off + length data)))).
         assert (A1 : InvF (fst (write_at s h off data false)) t1 g) by (apply InvF_shs; exact A).
-        pose proof (dur_write_at s d g h sh off data coin t1 HD Hrel Ehw eq_refl eq_refl Hn A1) as X.
+        pose proof (dur_write_at s d g gd h sh off data coin t1 HD Hrel Ehw eq_refl eq_refl Hn A1) as X.
         destruct (write_at s h off data coin) as [s1 [k|e]] eqn:Ew; cbn [fst snd is_err wfs with_fs] in *.
         -- exact X.
         -- exfalso. unfold write_at in Ew. rewrite Ehw in Ew. cbn in Ew. inversion Ew.
@@ -1311,8 +1497,8 @@ Proof.
       destruct (hw h) eqn:Ehw; cbn [negb fst snd is_err wfs with_fs]; [|same_tree HD].
       rewrite Hp.
       set (t1 := set_inode t (sino sh) (resize (iget (inodes t) (sino sh)) (N.to_nat n))).
-      assert (H1 : Dur (push s (PSetLen (spath sh) (N.to_nat n))) (with_dw d t1) g).
-      { eapply (Dur_data s d g _ _ (spath sh) HD);
+      assert (H1 : Dur (push s (PSetLen (spath sh) (N.to_nat n))) (with_dw d t1) g gd).
+      { eapply (Dur_data s d g gd _ _ (spath sh) HD);
           [repeat split|reflexivity|reflexivity|cbn; apply path_eqb_refl|reflexivity|apply (inv_bound _ _ _ HF)]. }
       destruct coin; [|exact H1].
       apply Dur_sync_file; [|exact H1|exact Hn].
@@ -1337,14 +1523,14 @@ Proof.
       apply Dur_sync_file; assumption.
 Qed.
 
-Lemma dur_path_ops s hs d g o :
-  InvF s (dw d) g -> Dur s d g -> op_classes (dw d) g o = [] -> kind_swap g o = false ->
-  match o with SyncDir _ | Mkdir _ | Unlink _ | Rename _ _ => True | _ => False end ->
-  Dur (wfs (fst (step (mkWorld s hs) o))) (fst (dstep d o)) (gone_after (dw d) g o).
+Lemma dur_path_ops s hs d g gd o :
+  InvF s (dw d) g -> Dur s d g gd -> op_classes (dw d) g o = [] -> kind_swap (dw d) g gd o = false ->
+  match o with SyncDir _ | Mkdir _ | Rmdir _ | Unlink _ | Rename _ _ => True | _ => False end ->
+  Dur (wfs (fst (step (mkWorld s hs) o))) (fst (dstep d o)) (gone_after (dw d) g o) (gd_after (dw d) gd o).
 Proof.
   intros HF HD Hcl Hks Hop. set (t := dw d) in *.
   destruct o; try contradiction; clear Hop; cbn [op_classes] in Hcl;
-    unfold dstep; fold t; cbn [step sstep wfs whs gone_after].
+    unfold dstep; fold t; cbn [step sstep wfs whs gone_after gd_after].
   - (* SyncDir *)
     destruct (nget (names t) p) as [[|i]|] eqn:En; cbn [fst snd is_err].
     + assert (Hd : dir_exists s p = true) by (rewrite (inv_dx _ _ _ HF); apply is_dir_iff; exact En).
@@ -1362,6 +1548,27 @@ Proof.
     rewrite (inv_fx _ _ _ HF), (inv_dx _ _ _ HF). unfold is_dir, is_file. fold t.
     destruct (nget (names t) p) as [[|i]|] eqn:En; cbn [orb fst snd is_err wfs]; try same_tree HD.
     apply Dur_mkdir; assumption.
+  - (* Rmdir *)
+    apply when_nil in Hcl.
+    unfold rmdir, res. rewrite (inv_dx _ _ _ HF). unfold is_dir. fold t.
+    destruct (nget (names t) p) as [[|i]|] eqn:En; cbn [negb fst snd is_err wfs]; try same_tree HD.
+    destruct p as [|a p]; [discriminate|].
+    rewrite (has_children_inv s t g _ HF).
+    destruct (children t (a :: p)) eqn:Ech; cbn [fst snd is_err wfs].
+    + apply Dur_rmdir; assumption.
+    + (* not empty: nothing changes, but the path is recorded as a removed directory *)
+      pose proof HD as [A Ap And B C D E F G Gd G2 H I J K L M N O P Q R].
+      assert (Hpd : is_dir t (a :: p) = true) by (apply is_dir_iff; exact En).
+      apply Dur_tree; [|reflexivity|reflexivity].
+      constructor; auto.
+      * intros q Hq. destruct (G q Hq) as [X|X]; [left; exact X|right; rewrite mem_path_cons, X; apply orb_true_r].
+      * intros q Hq. rewrite mem_path_cons in Hq. destruct (path_eqb q (a :: p)) eqn:Eq.
+        -- apply path_eqb_eq in Eq. subst q. fold t. unfold is_file. rewrite En. reflexivity.
+        -- apply Gd. exact Hq.
+      * intros q Hq. rewrite mem_path_cons. destruct (path_eqb q (a :: p)) eqn:Eq.
+        -- apply path_eqb_eq in Eq. subst q. apply I in Hq. fold t in Hq. congruence.
+        -- apply G2. exact Hq.
+      * intros q Hq. rewrite mem_path_cons, (R q Hq). apply orb_true_r.
   - (* Unlink *)
     unfold unlink, res. rewrite (inv_fx _ _ _ HF). unfold is_file. fold t.
     destruct (nget (names t) p) as [[|i]|] eqn:En; cbn [negb fst snd is_err wfs]; try same_tree HD.
@@ -1377,15 +1584,17 @@ Proof.
     destruct (parent_exists s (b :: t0)); cbn [negb fst snd wfs]; same_tree HD.
 Qed.
 
-Lemma dur_spit s hs d g p data coin :
-  InvF s (dw d) g -> Dur s d g -> op_classes (dw d) g (Spit p data coin) = [] ->
-  Dur (wfs (fst (step (mkWorld s hs) (Spit p data coin)))) (fst (dstep d (Spit p data coin))) g.
+Lemma dur_spit s hs d g gd p data coin :
+  InvF s (dw d) g -> Dur s d g gd -> op_classes (dw d) g (Spit p data coin) = [] ->
+  kind_swap (dw d) g gd (Spit p data coin) = false ->
+  Dur (wfs (fst (step (mkWorld s hs) (Spit p data coin)))) (fst (dstep d (Spit p data coin))) g gd.
 Proof.
-  intros HF HD Hcl. cbn [op_classes] in Hcl. apply app_eq_nil in Hcl as [_ Hrc]. apply when_nil in Hrc.
+  intros HF HD Hcl Hks. cbn [op_classes] in Hcl. apply app_eq_nil in Hcl as [_ Hrc]. apply when_nil in Hrc.
+  cbn [kind_swap] in Hks.
   set (t := dw d) in *. unfold dstep. fold t. cbn [step sstep wfs whs]. unfold open_file.
   rewrite (inv_fx _ _ _ HF p). fold t. cbn [andb orb].
   (* the durable effect of truncate + write + coin on a file that exists in (s0, d0) *)
-  assert (Hwr : forall s0 d0 i t1, InvF s0 (dw d0) g -> Dur s0 d0 g -> nget (names (dw d0)) p = Some (EFile i) ->
+  assert (Hwr : forall s0 d0 i t1, InvF s0 (dw d0) g -> Dur s0 d0 g gd -> nget (names (dw d0)) p = Some (EFile i) ->
      names t1 = names (dw d0) -> next_ino t1 = next_ino (dw d0) ->
      InvF (push s0 (PSetLen p 0)) (set_inode (dw d0) i []) g ->
      (forall b l, data = b :: l ->
@@ -1398,16 +1607,16 @@ Proof.
          (match data with
           | [] => with_dw d0 t1
           | _ :: _ => let d' := add_pend (with_dw d0 t1) i 0 data in if coin then data_sync d' i else d'
-          end) g).
+          end) g gd).
   { intros s0 d0 i t1 H0 HD0 Hn0 Hn1 Hx1 HIa HIb.
-    assert (H1 : Dur (push s0 (PSetLen p 0)) (with_dw d0 (set_inode (dw d0) i [])) g).
-    { eapply (Dur_data s0 d0 g _ _ p HD0);
+    assert (H1 : Dur (push s0 (PSetLen p 0)) (with_dw d0 (set_inode (dw d0) i [])) g gd).
+    { eapply (Dur_data s0 d0 g gd _ _ p HD0);
         [repeat split|reflexivity|reflexivity|cbn; apply path_eqb_refl|reflexivity|apply (inv_bound _ _ _ H0)]. }
     destruct data as [|b data].
     - eapply Dur_ext; [exact H1|repeat split|reflexivity|exact Hn1|exact Hx1].
     - set (h := {| hpath := p; hr := false; hw := true; ha := false; hpos := 0 |}).
       set (sh := {| spath := p; sino := i; sr := false; sw := true; sa := false; spos := 0 |}).
-      pose proof (dur_write_at (push s0 (PSetLen p 0)) (with_dw d0 (set_inode (dw d0) i [])) g h sh 0 (b :: data) coin t1
+      pose proof (dur_write_at (push s0 (PSetLen p 0)) (with_dw d0 (set_inode (dw d0) i [])) g gd h sh 0 (b :: data) coin t1
                     H1 ltac:(repeat split) eq_refl Hn1 Hx1 Hn0) as X.
       cbn [sino sh] in X. specialize (X (HIb b data eq_refl)).
       cbn [with_dw dw] in X.
@@ -1440,7 +1649,7 @@ Proof.
     rewrite Hf, Hdx. rewrite (parent_exists_inv s t g p HF).
     destruct (parent_is_dir t p) eqn:Hpar; cbn [negb fst snd is_err wfs with_fs]; [|same_tree HD].
     pose proof (InvF_create s t g p HF En Hpar Hrc) as HC.
-    pose proof (Dur_create s d g p HF HD En Hrc) as HDC. fold t in HDC.
+    pose proof (Dur_create s d g gd p HF HD En Hrc Hks) as HDC. fold t in HDC.
     set (t0 := {| names := nset (names t) p (EFile (next_ino t));
                   inodes := iset (inodes t) (next_ino t) []; next_ino := next_ino t + 1; shs := shs t |}) in *.
     set (t1 := {| names := nset (names t) p (EFile (next_ino t));
@@ -1466,15 +1675,16 @@ Proof.
     destruct data as [|b data]; cbn [fst snd wfs with_fs]; exact Hwr.
 Qed.
 
-Lemma dstep_refines w d g o :
-  DInv w d g -> c07_op o = true -> op_classes (dw d) g o = [] -> kind_swap g o = false ->
+Lemma dstep_refines w d g gd o :
+  DInv w d g gd -> c07_op o = true -> op_classes (dw d) g o = [] -> kind_swap (dw d) g gd o = false ->
   (forall x, o = Crash x -> dangling d = false) ->
-  DInv (fst (step w o)) (fst (dstep d o)) (gone_after (dw d) g o) /\ obs_ok (snd (dstep d o)) (snd (step w o)).
+  DInv (fst (step w o)) (fst (dstep d o)) (gone_after (dw d) g o) (gd_after (dw d) gd o) /\
+  obs_ok (snd (dstep d o)) (snd (step w o)).
 Proof.
   intros (HF & HH & HD) Hop Hcl Hks Hdg.
   destruct (match o with Crash _ => true | _ => false end) eqn:Hcr.
-  - destruct o; try discriminate. cbn [step dstep fst snd gone_after wfs whs].
-    destruct (crash_refines (wfs w) d g draws HF HD (Hdg draws eq_refl)) as [A B].
+  - destruct o; try discriminate. cbn [step dstep fst snd gone_after gd_after wfs whs].
+    destruct (crash_refines (wfs w) d g gd draws HF HD (Hdg draws eq_refl)) as [A B].
     split; [|reflexivity]. split; [exact A|]. split; [|exact B].
     intro slot. cbn. exact I.
   - assert (Hnc : forall x, o <> Crash x) by (intros x Hx; subst o; discriminate).
@@ -1487,22 +1697,24 @@ Proof.
     + rewrite (step_readonly _ o Hro). cbn [wfs].
       destruct (dstep_readonly d o Hro) as (S1 & S2 & S3 & S4).
       replace (gone_after (dw d) g o) with g by (destruct o; try discriminate; reflexivity).
+      replace (gd_after (dw d) gd o) with gd by (destruct o; try discriminate; reflexivity).
       eapply Dur_ext; eauto.
     + destruct o; try discriminate.
-      * replace (gone_after (dw d) g _) with g by reflexivity. apply dur_open; assumption.
-      * replace (gone_after (dw d) g _) with g by reflexivity. apply dur_handle_ops; auto.
-      * replace (gone_after (dw d) g _) with g by reflexivity. apply dur_handle_ops; auto.
-      * replace (gone_after (dw d) g _) with g by reflexivity. apply dur_handle_ops; auto.
-      * replace (gone_after (dw d) g _) with g by reflexivity. apply dur_handle_ops; auto.
-      * replace (gone_after (dw d) g _) with g by reflexivity. apply dur_handle_ops; auto.
-      * apply dur_path_ops; auto.
-      * apply dur_path_ops; auto.
-      * apply dur_path_ops; auto.
-      * apply dur_path_ops; auto.
-      * replace (gone_after (dw d) g _) with g by reflexivity. apply dur_spit; assumption.
+      * exact (dur_open s hs d g gd slot p r w a t c n HF HD Hcl Hks).
+      * exact (dur_handle_ops s hs d g gd _ HF HH HD Hcl I).
+      * exact (dur_handle_ops s hs d g gd _ HF HH HD Hcl I).
+      * exact (dur_handle_ops s hs d g gd _ HF HH HD Hcl I).
+      * exact (dur_handle_ops s hs d g gd _ HF HH HD Hcl I).
+      * exact (dur_handle_ops s hs d g gd _ HF HH HD Hcl I).
+      * exact (dur_path_ops s hs d g gd _ HF HD Hcl Hks I).
+      * exact (dur_path_ops s hs d g gd _ HF HD Hcl Hks I).
+      * exact (dur_path_ops s hs d g gd _ HF HD Hcl Hks I).
+      * exact (dur_path_ops s hs d g gd _ HF HD Hcl Hks I).
+      * exact (dur_path_ops s hs d g gd _ HF HD Hcl Hks I).
+      * exact (dur_spit s hs d g gd p data coin HF HD Hcl Hks).
 Qed.
 
-Lemma DInv_init b : DInv (init_world b) (init_dworld b) [].
+Lemma DInv_init b : DInv (init_world b) (init_dworld b) [] [].
 Proof.
   destruct (Inv_init b) as [A B]. split; [exact A|]. split; [exact B|].
   constructor; cbn; try discriminate.
@@ -1513,7 +1725,7 @@ Proof.
   - intros p i. destruct p; discriminate.
   - intros p. destruct p; [reflexivity|discriminate].
   - intros p i. destruct p; discriminate.
-  - intros p. unfold is_dir. cbn. destruct p; [reflexivity|discriminate].
+  - intros p Hp. left. unfold is_dir. cbn. destruct p; [reflexivity|discriminate].
   - intros p i. destruct p; discriminate.
   - intros p q i. destruct q; discriminate.
   - intros p q i. destruct p; discriminate.
@@ -1524,11 +1736,11 @@ Proof.
   - intros p [].
 Qed.
 
-Lemma drun_refines : forall l w d g,
-  DInv w d g -> forallb c07_op l = true -> dsafe_from d g l = true ->
+Lemma drun_refines : forall l w d g gd,
+  DInv w d g gd -> forallb c07_op l = true -> dsafe_from d g gd l = true ->
   Forall2 obs_ok (snd (drun d l)) (snd (run w l)).
 Proof.
-  induction l as [|o l IH]; intros w d g HI Hal Hs; cbn [drun run].
+  induction l as [|o l IH]; intros w d g gd HI Hal Hs; cbn [drun run].
   - constructor.
   - cbn in Hal. apply andb_true_iff in Hal as [Ho Hal].
     cbn [dsafe_from] in Hs. apply andb_true_iff in Hs as [Hs Hs4]. apply andb_true_iff in Hs as [Hs Hs3].
@@ -1537,9 +1749,9 @@ Proof.
     apply negb_true_iff in Hs2.
     assert (Hdg : forall x, o = Crash x -> dangling d = false).
     { intros x Hx. subst o. apply negb_true_iff in Hs3. exact Hs3. }
-    destruct (dstep_refines w d g o HI Ho Hcl Hs2 Hdg) as [HI' Hobs].
+    destruct (dstep_refines w d g gd o HI Ho Hcl Hs2 Hdg) as [HI' Hobs].
     destruct (dstep d o) as [d1 y] eqn:Es. destruct (step w o) as [w1 x] eqn:Ew. cbn [fst snd] in *.
-    specialize (IH w1 d1 _ HI' Hal Hs4).
+    specialize (IH w1 d1 _ _ HI' Hal Hs4).
     destruct (drun d1 l) as [d2 ys]. destruct (run w1 l) as [w2 xs]. cbn [fst snd] in *.
     constructor; assumption.
 Qed.
@@ -1547,4 +1759,4 @@ Qed.
 Theorem crash_image_lemma : forall bs l,
   forallb c07_op l = true -> dsafe bs l = true ->
   Forall2 obs_ok (snd (drun (init_dworld bs) l)) (snd (run (init_world bs) l)).
-Proof. intros bs l Hal Hs. exact (drun_refines l _ _ [] (DInv_init bs) Hal Hs). Qed.
+Proof. intros bs l Hal Hs. exact (drun_refines l _ _ [] [] (DInv_init bs) Hal Hs). Qed.
